@@ -696,6 +696,15 @@ class VC(object):
     def bool(self, name): return self.ctx.fresh_bool(name)
     def real(self, name): return self.ctx.fresh_real(name)
     def bytes(self, name): return self.ctx.fresh_bytes(name)
+
+    def bytes_of_length(self, name, n):
+        """symbolic bytes of exactly n bytes whose len() is the concrete n (a long buffer without a long literal)"""
+        b = self.ctx.fresh_bytes(name)
+        self.ctx.assume((b.length() == n).t, silent=True)
+        if not hasattr(self.ctx, 'fixed_len'):
+            self.ctx.fixed_len = {}
+        self.ctx.fixed_len[b.t.get_id()] = n
+        return b
     def str(self, name): return self.ctx.fresh_str(name)
     def intseq(self, name): return self.ctx.fresh_intseq(name)
 
